@@ -19,6 +19,16 @@ def _helper_findings(I):
             '(contract-level witness: the operand is a value the producing field operations may deliver)' % f['info'], f['loc'])
 
 
+def _helper_unknown(I, bad):
+    """the result misses the specification while a raw-arithmetic helper was replaced by its multilinear interpolant although
+    it is not that polynomial everywhere: the helper may legitimately be another function (not multilinear), so nothing is
+    concluded about the routine"""
+    f = I.helper_findings[0]
+    return ('incomplete', 'a helper computing on raw representations (%s) is not the multilinear polynomial it agrees with at 0/1 operands, '
+            'and with that polynomial in its place the result misses the specification (%s): the helper could not be summarised' % (
+                f['dem'].split('(')[0], bad[0]), f['loc'])
+
+
 def log2(n):
     return n.bit_length() - 1
 
@@ -102,6 +112,8 @@ class Runner:
             if len(bad) >= 3:
                 break
         if bad:
+            if getattr(I, 'helper_findings', None):
+                return _helper_unknown(I, bad)
             return ('refuted', '; '.join(bad), None)
         if dstmode == 'other' and any(r is src for r, o, sz in I.writes):
             return ('refuted', 'the source buffer is written although the destination is a different buffer', None)
@@ -149,6 +161,8 @@ class Runner:
                 if len(bad) >= 3:
                     break
         if bad:
+            if getattr(I, 'helper_findings', None):
+                return _helper_unknown(I, bad)
             return ('refuted', '; '.join(bad), None)
         if not inplace and any(r is inp for r, o, sz in I.writes):
             return ('refuted', 'the input buffer is written although the output is a different buffer', None)
